@@ -10,7 +10,8 @@ the Lean model on the same packets (toy hash / toy host key / toy curves bit-ide
 Oracle (model-independent): for every case the harness knows from the DEFINITION whether the peer value is valid
 (1 <= v <= p-1; 1024 <= bits(p) <= 8192 and p > 0; library accepts the point; X25519 secret not all-zero). Invalid
 => the step must raise, `_set_K_H` must not have been called and nothing may have been sent. Run (a) engine level
-with toy and with real `cryptography` primitives, (b) gex group sizes with the real `_generate_x`, (c) end to end
+with toy and with real `cryptography` primitives, (b) gex group sizes with the real `_generate_x`, (c) the whole
+out-of-range sweep once more in a child interpreter started with -O (guards written as `assert` vanish there), (d) end to end
 between two real Transports with a plaintext man-in-the-middle replacing e / f / p / the point, and the same on a
 re-exchange (the sending transport is made to emit the invalid value, since that traffic is encrypted).
 """
@@ -335,6 +336,63 @@ def rekey_oracle(ctx):
             e.close()
 
 
+def optimized_interpreter_oracle(ctx):
+    """the out-of-range sweep once more in a child interpreter started with -O (and -OO in the thorough tier):
+    a guard written as `assert` disappears there; the property must hold at every optimisation level."""
+    import json
+    import os
+    import subprocess
+    import sys
+    from pv.core import VERIF, REPO, InfraError
+
+    for flag in (["-O"] + (["-OO"] if ctx.thorough else [])):
+        env = dict(os.environ, PV_REPO=REPO)
+        try:
+            p = subprocess.run([sys.executable, flag, "-W", "ignore", "-c", "from pv import lib_kexeng as L; L.child_main()",
+                                str(ctx.seed)], cwd=VERIF, env=env, capture_output=True, text=True, timeout=600)
+        except subprocess.TimeoutExpired:
+            raise InfraError("C08: child interpreter %s timed out" % flag)
+        lines = [l for l in p.stdout.split("\n") if l.startswith("{")]
+        if p.returncode != 0 or len(lines) < 2:
+            raise InfraError("C08: child interpreter %s failed: rc=%s %s" % (flag, p.returncode, p.stderr[-300:]))
+        head = json.loads(lines[0])
+        if head["optimize"] < 1 or os.path.realpath(head["repo"]) != os.path.realpath(REPO):
+            raise InfraError("C08: child interpreter not optimised / wrong repo: %r" % head)
+        n_before = len(ctx.fails)
+        for l in lines[1:]:
+            d = json.loads(l)
+            sc = L.sc_from_json(d["sc"])
+            for k, v in d["extra"].items():
+                sc[k] = int(v) if k in ("peer_value", "modulus_p", "gex_p") else v
+            text = d["text"]
+            if text.startswith("CRASH"):
+                ctx.disagree("engine-run-crashed(python %s)" % flag, {"label": sc.get("label")}, "-", text)
+                continue
+            invalid = judge(ctx, sc, text, start_len_of(sc))
+            ctx.case(("python" + flag, sc["engine"], sc["role"], tuple(sc["pkts"]), sc["x"]), bool(invalid))
+            ctx.dist("python%s:%s" % (flag, "invalid" if invalid else "valid" if invalid is False else "other"))
+        for f in ctx.fails[n_before:]:
+            f["signature"] += ":python" + flag
+            f["case"]["interpreter"] = "python " + flag
+
+
+def source_guard_facts(ctx):
+    """proof-side tie to the source: the checks on peer input in the kex modules are `if …: raise`, never
+    `assert` (which `python -O` removes)"""
+    import ast
+    import glob
+    import os
+    from pv.core import REPO
+
+    for path in sorted(glob.glob(os.path.join(REPO, "paramiko", "kex_*.py"))):
+        tree = ast.parse(open(path, encoding="utf-8").read())
+        for node in ast.walk(tree):
+            if isinstance(node, ast.Assert):
+                ctx.disagree("assert-statement-in-kex-module", {"file": os.path.basename(path), "line": node.lineno},
+                             "guards are `if …: raise SSHException`", "assert " + ast.unparse(node.test)[:120])
+        ctx.dist("source:kex-module-without-assert")
+
+
 def tag(v, P):
     if v == 0:
         return "0"
@@ -403,6 +461,8 @@ def run(ctx):
                 continue
             ctx.disagree("kex-engine-trace", {"scenario": L.sc_json(sc), "label": sc.get("label")}, model[i][:600], text[:600])
 
+    source_guard_facts(ctx)
+    optimized_interpreter_oracle(ctx)
     real_curve_oracle(ctx)
     gex_group_oracle(ctx)
     e2e_oracle(ctx)
@@ -435,5 +495,5 @@ META = {
              "exponents are inputs of the model (the real _generate_x is exercised by the gex oracle only). The "
              "comparison tolerates an implementation that also refuses exactly p-1 (stricter, not a violation). "
              "Trusted: Lean kernel + 3 axioms, harness/generators, Python pow/bit_length."),
-    "technique": "Lean 4 proof over an effect-trace model of the engines + differential correspondence + MITM oracle",
+    "technique": "Lean 4 proof over an effect-trace model of the engines (source fact: no assert guards in kex_*.py; sweep repeated under python -O) + differential correspondence + MITM oracle",
 }
